@@ -2922,9 +2922,9 @@ pub fn matrix_column_elements(&mut self, column_elements: &[&MatrixColumn]) -> S
           let k = self.kind(kind);
           let ident_s = ident.to_string();
           if i == 0 {
-            src = format!("{}&lt;{}&gt;", ident_s, k);
+            src = if self.html { format!("{}&lt;{}&gt;", ident_s, k) } else { format!("{}<{}>", ident_s, k) };
           } else {
-            src = format!("{},{}&lt;{}&gt;", src, ident_s, k);
+            src = if self.html { format!("{},{}&lt;{}&gt;", src, ident_s, k) } else { format!("{},{}<{}>", src, ident_s, k) };
           }
         }
         format!("{{{}}}", src)
@@ -2935,9 +2935,9 @@ pub fn matrix_column_elements(&mut self, column_elements: &[&MatrixColumn]) -> S
           let k = self.kind(kind);
           let ident_s = ident.to_string();
           if i == 0 {
-            src = format!("{}&lt;{}&gt;", ident_s, k);
+            src = if self.html { format!("{}&lt;{}&gt;", ident_s, k) } else { format!("{}<{}>", ident_s, k) };
           } else {
-            src = format!("{},{}&lt;{}&gt;", src, ident_s, k);
+            src = if self.html { format!("{},{}&lt;{}&gt;", src, ident_s, k) } else { format!("{},{}<{}>", src, ident_s, k) };
           }
         }
         let mut src2 = "".to_string();
